@@ -2,6 +2,7 @@ package engine
 
 import (
 	"fmt"
+	"os"
 	"go/types"
 	"math/big"
 	"strings"
@@ -294,6 +295,17 @@ func (u *Unit) assumeTypeInv(x *Term, t types.Type, st *State, guard *Term) {
 		return
 	}
 	u.invDone[key] = true
+	defer func() {
+		// registered after the assumption itself has been emitted (the simplifier must not swallow it)
+		if bound == u.alloc0 && !x.open {
+			switch x.Sort {
+			case SRef:
+				c.oldRoot[c.Root(x).id] = true
+			case SSlice:
+				c.oldRoot[c.Root(c.SArr(x)).id] = true
+			}
+		}
+	}()
 	switch x.Sort {
 	case SInt:
 		if lo, hi, ok := intRange(t); ok {
@@ -304,9 +316,15 @@ func (u *Unit) assumeTypeInv(x *Term, t types.Type, st *State, guard *Term) {
 		u.assume(guard, c.Or(c.Eq(x, c.Nil()), c.And(c.Le(c.Int(1), c.Root(x)), c.Lt(c.Root(x), bound))))
 		if pt, ok := t.Underlying().(*types.Pointer); ok {
 			u.ptrFacts = append(u.ptrFacts, ptrFact{x, pt.Elem(), guard, len(u.assumptions)})
+			if !x.open {
+				c.rootTag[c.Root(x).id] = rootTagT{slice: false, t: pt.Elem()}
+			}
 		}
 	case SSlice:
 		if stt, ok := t.Underlying().(*types.Slice); ok {
+			if !x.open {
+				c.rootTag[c.Root(c.SArr(x)).id] = rootTagT{slice: true, t: stt.Elem()}
+			}
 			// backing arrays are allocations of their own, typed by their element type
 			u.assume(guard, c.Or(c.Eq(c.SArr(x), c.Nil()), c.And(c.Eq(u.rootType(c.Root(c.SArr(x))), u.arrTypeID(stt.Elem())), c.Eq(c.PathOf(c.SArr(x)), c.PNil()))))
 		}
@@ -335,7 +353,7 @@ func heapKey(s *Sort) string { return "H:" + s.Name }
 // load reads a value of type t at address addr.
 func (u *Unit) load(st *State, addr *Term, t types.Type, guard *Term) *SV {
 	if s := u.leafSort(t); s != nil {
-		x := u.c.Select(u.heapArr(st, s), addr)
+		x := u.readThrough(u.heapArr(st, s), addr, guard)
 		u.assumeTypeInv(x, t, st, guard)
 		return leaf(x)
 	}
@@ -514,4 +532,91 @@ func (u *Unit) aliasFactsFor(pfs []ptrFact, nAssume int) []*Term {
 		}
 	}
 	return out
+}
+
+type rootTagT struct {
+	slice bool
+	t     types.Type
+}
+
+// rootsIncompatible: a pointer to T cannot point into the backing array of a []A when A cannot contain a T; two
+// backing arrays of different element types are different objects. (Both being nil is the one case where the roots
+// coincide; frame conditions may ignore it because nothing is ever written through nil.)
+func rootsIncompatible(a, b interface{}) bool {
+	x, y := a.(rootTagT), b.(rootTagT)
+	switch {
+	case x.slice && y.slice:
+		return !types.Identical(x.t, y.t)
+	case x.slice && !y.slice:
+		return !embeddable(y.t, x.t, 0)
+	case !x.slice && y.slice:
+		return !embeddable(x.t, y.t, 0)
+	}
+	return false
+}
+
+// readThrough reads arr[addr], skipping havoc / append arrays whose frame condition holds syntactically for addr
+// (under a guard that the current path condition contains).
+func (u *Unit) readThrough(arr, addr, pc *Term) *Term {
+	c := u.c
+	if addr.open {
+		return c.Select(arr, addr)
+	}
+	for depth := 0; depth < 200; depth++ {
+		// peel stores at syntactically different addresses (Select does this too, but we need to continue below)
+		for arr.Op == "store" {
+			e := c.Eq(arr.Args[1], addr)
+			if e.IsFalse() {
+				arr = arr.Args[0]
+				continue
+			}
+			break
+		}
+		if arr.Op == "ite" {
+			return c.Ite(arr.Args[0], u.readThrough(arr.Args[1], addr, pc), u.readThrough(arr.Args[2], addr, pc))
+		}
+		if arr.Op != "const" {
+			break
+		}
+		fas := u.frameAx[arr.id]
+		moved := false
+		for _, fa := range fas {
+			if !guardImplied(pc, fa.guard) {
+				continue
+			}
+			cond := c.Subst(fa.cond, map[*Term]*Term{fa.bv: addr})
+			if cond.IsTrue() {
+				arr = fa.prev
+				moved = true
+				break
+			}
+			if os.Getenv("GOVC_DEBUG") == "3" && strings.Contains(arr.Name, "Hh2_H_Slice") {
+				fmt.Fprintf(os.Stderr, "readThrough stuck at %s addr=%s cond=%s\n", arr.Name, trunc(addr.String(), 120), trunc(cond.String(), 400))
+			}
+		}
+		if !moved {
+			break
+		}
+	}
+	return c.Select(arr, addr)
+}
+
+// guardImplied: every conjunct of g occurs among the conjuncts of pc.
+func guardImplied(pc, g *Term) bool {
+	if g == nil || g.IsTrue() {
+		return true
+	}
+	if pc == nil {
+		return false
+	}
+	have := map[int]bool{}
+	for _, x := range conj(pc) {
+		have[x.id] = true
+	}
+	for _, x := range conj(g) {
+		if !have[x.id] {
+			return false
+		}
+	}
+	return true
 }
